@@ -18,7 +18,7 @@ def vals(rng, shape, kind='any'):
     if kind == 'pos':
         return [rng.pick([0.25, 0.5, 1.0, 1.5, 2.0, 3.0]) if rng.chance(.5) else round(rng.uniform(0.2, 3), 3) for _ in range(n)]
     if kind == 'distinct':
-        base = rng.sample(range(-40, 40), n) if n <= 80 else list(range(n))
+        base = rng.sample(range(-40, 40), n) if n <= 80 else rng.sample(range(-n, n), n)
         return [b / 8 for b in base]
     if kind == 'ties':       # few distinct values: the extreme is usually attained several times
         pool = rng.sample([-2.0, -0.5, 0.0, 0.5, 1.0, 3.0], rng.randint(1, 3))
@@ -42,6 +42,8 @@ def axes_arg(rng, ndim, allow_tuple=True):
         return 'all'
     if r < .6 or not allow_tuple:
         return f'i:{rng.randrange(-ndim, ndim)}'
+    if r < .66:
+        return 't:_'          # the empty tuple of dims: nothing is reduced
     k = rng.randint(1, ndim)
     ax = rng.sample(range(ndim), k)
     return 't:' + show_ints([a if rng.chance(.5) else a - ndim for a in ax])
@@ -120,9 +122,9 @@ def gen_basic(rng, op, malformed=False):
         if malformed: a = (n + 1, m + 2)
         return [L(a), L((n, k)), L((k, m))], []
     if op == 'pow':
-        e = rng.pick([2, 3, -1, 0.5, 1.5, -2, 1, 2.5, 4, 0, 0, -0.0])      # exponent 0: the constant 1 with gradient 0 (on non-zero operands)
+        e = rng.pick([2, 3, -1, 0.5, 1.5, -2, 1, 2.5, 4, 0, 0, -0.0, 1 / 3, 2 / 3, 0.1, -0.5, 1 / 3])      # exponent 0: the constant 1 with gradient 0 (on non-zero operands); fractions on either-sign data give nan
         s = rshape(rng)
-        return [L(s, 'pos' if e == 0 or ((e != int(e) or e < 0) and rng.chance(.8)) else ('pos' if e != int(e) else 'any'))], [fbits(float(e))]
+        return [L(s, 'pos' if e == 0 or ((e != int(e) or e < 0) and rng.chance(.6)) else 'any')], [fbits(float(e))]
     if op == 'rpow':
         return [L(rshape(rng))], [fbits(rng.pick([2.0, 0.5, 3.0, 2.718281828459045, 1.5]))]
     if op in ('neg', 'clone', 'exp'):
@@ -307,6 +309,15 @@ def gen_nn(rng, op, malformed=False):
         bias = rng.chance(.6)
         return ([L((n, c, H, W), rg=rng.chance(.8)), L((co, c, kh, kw))] + ([L((co,))] if bias else []),
                 [int(bias), show_ints((sh, sw)), show_ints((ph, pw)), show_ints((dh, dw))])
+    if op in ('max_pool1d', 'avg_pool1d') and not malformed and rng.chance(.12):
+        # a window of more than 256 elements (global pooling of a long signal): positions inside a window do not fit a byte
+        Ln = rng.randint(262, 330); k = rng.randint(257, Ln); s = rng.randint(1, 40)
+        sh = (1, rng.randint(1, 2), Ln)
+        return [L(sh, vals(rng, sh, 'distinct') if op.startswith('max') else None)], [k, s, 0, 1]
+    if op in ('max_pool2d', 'avg_pool2d') and not malformed and rng.chance(.12):
+        H, W = rng.randint(17, 20), rng.randint(17, 20); kh, kw = rng.pick([(17, 17), (16, 17), (17, 16), (H, W)])
+        s4 = (1, 1, H, W)
+        return [L(s4, vals(rng, s4, 'distinct') if op.startswith('max') else None)], [show_ints((kh, kw)), show_ints((rng.randint(1, 3), rng.randint(1, 3))), show_ints((0, 0)), show_ints((1, 1))]
     if op in ('max_pool1d', 'avg_pool1d'):
         n, c = rng.randint(1, 2), rng.randint(1, 2)
         while True:
